@@ -31,6 +31,15 @@ func nestedCountersig(r *mon.Rand, depth int, scramble int) *Node {
 // addCountersigs puts a single countersignature or a list under label 7 or 11.
 func addCountersigs(r *mon.Rand, l *WLayer, depth, scramble int) {
 	label := mon.Pick(r, int64(7), int64(11))
+	if r.Intn(5) == 0 {
+		// both countersignature labels in one header (a version-1 and a version-2 countersignature side by side)
+		other := int64(18) - label
+		if r.Bool() {
+			l.AddUnprot(other, nestedCountersig(r, depth, scramble))
+		} else {
+			l.AddUnprot(other, refcbor.NArr(nestedCountersig(r, depth, scramble), nestedCountersig(r, depth, scramble)))
+		}
+	}
 	if r.Bool() {
 		l.AddUnprot(label, nestedCountersig(r, depth, scramble))
 		return
